@@ -299,6 +299,9 @@ type VC struct {
 	fresh   int
 	oblName map[string]int
 	inQuant int // >0 while building the body of a quantifier: no global definitions/assumptions
+	// kinds of obligations that are assumed instead of proved (`pragma obligations contract`), with counts
+	assumeKinds map[string]bool
+	assumedN    map[string]int
 }
 
 func NewVC(fn string) *VC {
@@ -398,6 +401,14 @@ func (vc *VC) uniqueName(name string) string {
 
 // Oblige records a proof obligation: under pc (and all earlier assumptions) goal holds.
 func (vc *VC) Oblige(kind, anchor string, pc, goal Term, pos string) *Obligation {
+	if vc.assumeKinds[kind] {
+		if vc.assumedN == nil {
+			vc.assumedN = map[string]int{}
+		}
+		vc.assumedN[kind]++
+		vc.Assume(pc, goal, "assumed "+kind+" obligation")
+		return &Obligation{Name: "assumed", Kind: kind, Func: vc.fn, Goal: TTrue}
+	}
 	g := Implies(pc, goal)
 	name := vc.uniqueName(fmt.Sprintf("%s#%s:%s", vc.fn, kind, anchor))
 	o := &Obligation{Name: name, Kind: kind, Func: vc.fn, Goal: g, Seq: vc.next(), Pos: pos}
@@ -693,6 +704,14 @@ func Discharge(vcs []*VC, outDir string, timeoutS int, par int) {
 		go func(i int, j job) {
 			defer wg.Done()
 			defer func() { <-sem }()
+			if j.o.Kind == "forbid" {
+				// syntactic obligation: decided when it was generated
+				j.o.Status, j.o.Backend = "unsat", "syntactic"
+				if !strings.HasSuffix(j.o.Goal.S, "true") && !strings.HasSuffix(j.o.Goal.S, "true)") {
+					j.o.Status = "sat"
+				}
+				return
+			}
 			script := j.vc.Query(j.o, true)
 			j.o.SMTSize = len(script)
 			base := fmt.Sprintf("q%04d_%s", i, sanitize(j.o.Name))
